@@ -57,7 +57,7 @@ def build_items(tier: str, seed: int) -> Tuple[List[dict], Dict[str, Any]]:
     info["size2"] = {"total": len(size2), "taken": min(take2, len(size2))}
     core = G.Cfg(G.scalar_leaves(G.STR_POOL_CORE))
     full_pool = G.Cfg(G.scalar_leaves(G.STR_POOL_FULL))
-    plan = {3: 1200, 4: 500, 5: 200, 6: 60} if quick else {3: 9000, 4: 5000, 5: 2500, 6: 1000}
+    plan = {3: 1200, 4: 500, 5: 200, 6: 60} if quick else {3: 30000, 4: 18000, 5: 9000, 6: 4000, 7: 1500}
     for n, cnt in plan.items():
         for i in range(cnt):
             cfg = core if i % 3 else full_pool
@@ -68,11 +68,11 @@ def build_items(tier: str, seed: int) -> Tuple[List[dict], Dict[str, Any]]:
     info["sampled"] = plan
     # redundant parentheses (same tree, other text) and concrete integer literals on a sample
     pool = [it for it in items if it["family"] not in ("strlit",)]
-    for it in G.sample(pool, 200 if quick else 2500, rng):
+    for it in G.sample(pool, 200 if quick else 8000, rng):
         add(it["family"] + "+fullparens", it["term"], full=True)
     with_ints = [it for it in items if G.int_slots(it["term"]) and not it["full"]]
     small = [0, 1, 2, -1, 3, -2, 8, -8]
-    for it in G.sample(with_ints, 300 if quick else 3000, rng):
+    for it in G.sample(with_ints, 300 if quick else 8000, rng):
         k = G.int_slots(it["term"])
         add(it["family"] + "+concrete", it["term"], mode="concrete", values=[rng.choice(small) for _ in range(k)])
     info["special_families"] = n_special
@@ -110,10 +110,6 @@ def classify(r: dict) -> str:
     return "other"
 
 
-def _neutralise(term, row: dict) -> dict:
-    return row
-
-
 # ---------------------------------------------------------------------- main
 def _work(item: dict) -> dict:
     if item.get("kind") == "validate":
@@ -121,8 +117,17 @@ def _work(item: dict) -> dict:
     return tv.check_program(item)
 
 
+def _clear_replays() -> None:
+    from ..common import REPLAY_DIR
+    d = REPLAY_DIR / PID
+    if d.is_dir():
+        for f in d.glob("*.json"):
+            f.unlink()
+
+
 def main() -> int:
     run = Run(PID, "translation_validation")
+    _clear_replays()                      # replay files are regenerated by every run of this property
     quick = run.tier == "quick"
     progress = bool(os.environ.get("VERIF_PROGRESS"))
     run.encode("odata_query.grammar.ODataLexer.tokenize", "odata_query.grammar.ODataParser.parse",
@@ -278,7 +283,8 @@ def main() -> int:
     for cls, lst in classes.items():
         best = min(lst, key=lambda r: (len(r["witness"]["filter"]), r["witness"]["filter"]))
         minimal[cls] = {"count": len(lst), "filter": best["witness"]["filter"], "sql": best["witness"].get("sql"),
-                        "row": best["witness"].get("row"), "what": best["what"]}
+                        "row": best["witness"].get("row"), "what": best["what"],
+                        "more_filters": sorted({r["witness"]["filter"] for r in lst}, key=lambda x: (len(x), x))[1:25]}
     run.extra.update({
         "rule": "one evaluation = one program (filter text through the live pipeline) decided by one z3 query over "
                 "all rows and literal values; distinct = distinct filter texts",
@@ -302,3 +308,11 @@ def main() -> int:
 def run_repo():
     from ..common import REPO
     return REPO
+
+
+def replay(data: dict) -> int:
+    """Re-run one replay file (as written by Run.violation) on the live code and the real sqlite3.
+    Returns 1 if the counterexample still reproduces, 0 if not."""
+    still, what = tv.replay_known_witness(data["witness"])
+    print(("REPRODUCED: " if still else "not reproduced: ") + what)
+    return 1 if still else 0
